@@ -36,7 +36,7 @@ class C17(Prop):
                 if fail:
                     f = fail if fail != "mixed" else r.choice(["missing", "missing2", "custom", "type", "badpath"])
                     if f == "missing":
-                        bm = {"kind": r.choice(["any", "type"]), "paths": [r.choice(bad_y)], "type": "string"}
+                        bm = {"kind": r.choice(["any", "type", "custom"]), "paths": [r.choice(bad_y)], "type": "string", "ret": '"<c>"'}
                     elif f == "missing2":
                         bm = {"kind": r.choice(["any", "type"]), "paths": list(bad_y), "type": "string", "expect_named": list(bad_y)}
                         if bm["kind"] == "type" and r.chance(1, 2):
@@ -46,7 +46,7 @@ class C17(Prop):
                                 bm = {"kind": "type", "type": "bool" if ytypes[q] != "bool" else "string", "paths": [q, bad_y[0]], "expect_named": [q, bad_y[0]]}
                     elif f == "badpath":
                         # a path the YAML path parser rejects
-                        bm = {"kind": r.choice(["any", "type"]), "paths": [r.choice(["$..[", "$.tags[x]"])], "type": "string"}   # (not `user.name`: whether a missing `$.` is an error is the path syntax's business)
+                        bm = {"kind": r.choice(["any", "type", "custom"]), "paths": [r.choice(["$..[", "$.tags[x]"])], "type": "string", "ret": '"<c>"'}   # (not `user.name`: whether a missing `$.` is an error is the path syntax's business)
                     elif f in ("type", "nulltype"):
                         # a value of the wrong type for Type, at a path no other matcher rewrites first
                         used = {m_["paths"][0] for m_ in ms}
@@ -56,6 +56,10 @@ class C17(Prop):
                     else:
                         bm = {"kind": "custom", "paths": [r.choice(good_y)], "err": True}
                     ms.insert(r.below(len(ms) + 1), bm)
+                elif r.chance(1, 3):
+                    # a TOLERATED missing path (ErrOnMissingPath(false)), every matcher kind: ignored, the rest proceeds normally
+                    ms.insert(r.below(len(ms) + 1), {"kind": r.choice(["any", "type", "custom"]), "paths": [r.choice(bad_y)], "type": "string",
+                                                      "ret": '"<c>"', "errOnMissing": False, "stmt": r.chance(1, 2)})
             env = r.choice(G.ENVS)
             upd = r.choice([None, None, True, False])
             ops = [G.op_newconfig(dir=b"d", upd=upd)]
